@@ -4,7 +4,9 @@
 
    Observation = the halting configurations (return value + state, retsub stack + state, failure,
    falling off the graph, unsupported op) reachable from the start block, for every operand stack
-   and machine state.  [normalize] is the faithful model of the Python passes (Comp/Passes.v). *)
+   and machine state.  [normalize] is the faithful model of the CURRENT Python passes (Comp/Passes.v,
+   after the repair 39fa261 of /repo); [normalize_pinned] is the code before that repair, kept as an
+   explicitly defined variant (Comp/SimCheck.v) for the historical statements at the end. *)
 From Coq Require Import List NArith.
 From PV Require Import Base.Bytes AVM.Syntax AVM.Machine Src.Expr Src.Denote
   Comp.Blocks Comp.Passes Comp.GraphSem Comp.SimCheck
@@ -25,11 +27,13 @@ Proof. intros env a. exact (exec_ops_app env a). Qed.
 Print Assumptions C01_exec_ops_app.
 
 (* pass 2, one step, ALL graphs: by-passing an empty single-successor block keeps the observable
-   behaviour from every block, whatever the incoming lists contain (stale or not) *)
+   behaviour from every block, whatever the incoming lists contain (stale or not); the start moves to
+   the successor when the by-passed block was the start *)
 Theorem C01_norm_body2_preserves :
   forall (env : denv) (g : graph) (s w : id) (g' : graph) (s' : id),
     cond_full g -> norm_body2 g s w = (g', s') ->
-    s' = s /\ cond_full g' /\ forall i, equiv_from env (g_blk g) i (g_blk g') i.
+    cond_full g' /\ equiv_from env (g_blk g) s (g_blk g') s' /\
+    forall i, equiv_from env (g_blk g) i (g_blk g') i.
 Proof. exact norm_body2_preserves. Qed.
 Print Assumptions C01_norm_body2_preserves.
 
@@ -40,18 +44,15 @@ Theorem C01_skip_equiv :
 Proof. exact skip_equiv. Qed.
 Print Assumptions C01_skip_equiv.
 
-(* pass 1, one step, ALL graphs satisfying the invariant (incoming ⊇ predecessors on the reachable
-   part, conditional blocks complete with two different branches, no edge into the start): the merge
-   preserves behaviour from the start and re-establishes the invariant *)
+(* pass 1, one step, ALL graphs satisfying the invariant (conditional blocks have both branches,
+   incoming ⊇ predecessors on the reachable part, no edge into the start): the merge preserves
+   behaviour from the start and re-establishes the invariant *)
 Theorem C01_norm_body1_preserves :
   forall (env : denv) (g : graph) (s w : id) (g' : graph) (s' : id),
-    cond_full g -> inc_covers g s ->
-    (forall p b, reach g s p -> g_blk g p = Some b -> dist_b b) ->
-    g_inc g s = [] ->
+    cond_full g -> inc_covers g s -> g_inc g s = [] ->
     norm_body1 g s w = (g', s') ->
     equiv_from env (g_blk g) s (g_blk g') s' /\
-    cond_full g' /\ inc_covers g' s' /\
-    (forall p b, reach g' s' p -> g_blk g' p = Some b -> dist_b b) /\ g_inc g' s' = [].
+    cond_full g' /\ inc_covers g' s' /\ g_inc g' s' = [].
 Proof. exact norm_body1_preserves. Qed.
 Print Assumptions C01_norm_body1_preserves.
 
@@ -71,11 +72,10 @@ Theorem C01_merge_equiv :
 Proof. exact merge_equiv. Qed.
 Print Assumptions C01_merge_equiv.
 
-(* MAIN: both passes, the BFS that mutates the graph it walks included *)
+(* MAIN: both passes of the current NormalizeBlocks, the BFS that mutates the graph it walks included *)
 Theorem C01_normalize_correct :
   forall (env : denv) (g : graph) (s : id) (g' : graph) (s' : id),
     cond_full g ->
-    (forall p b, reach g s p -> g_blk g p = Some b -> dist_b b) ->
     inc_covers g s ->
     g_inc g s = [] ->
     normalize g s = (g', s') ->
@@ -84,8 +84,8 @@ Proof. exact normalize_correct. Qed.
 Print Assumptions C01_normalize_correct.
 
 (* the same with decidable hypotheses: [validate_tree] is the check the compiler itself runs right
-   before NormalizeBlocks; [norm_pre_check] and the emptiness of the start block's incoming list are
-   computed on the graph (certificate per compiled routine) *)
+   before NormalizeBlocks; completeness of the conditional blocks and the emptiness of the start
+   block's incoming list are computed on the graph *)
 Theorem C01_norm_cert_sound :
   forall (env : denv) (g : graph) (s : id) (g' : graph) (s' : id),
     wf g -> norm_cert g s = true -> normalize g s = (g', s') ->
@@ -97,7 +97,7 @@ Print Assumptions C01_norm_cert_sound.
 Theorem C01_add_incoming_normalize_correct :
   forall (env : denv) (g : graph) (s : id) (g' : graph) (s' : id),
     wf g -> (forall b, g_inc g b = []) ->
-    norm_pre_check g = true ->
+    cond_full g ->
     (forall p, reach g s p -> ~ In s (out_of g p)) ->
     normalize (fst (add_incoming g s)) s = (g', s') ->
     equiv_from env (g_blk g) s (g_blk g') s'.
@@ -106,45 +106,40 @@ Print Assumptions C01_add_incoming_normalize_correct.
 
 (* non-vacuity: the hypotheses hold of a loop graph that the pass does rewrite *)
 Theorem C01_normalize_correct_nonvacuous :
-  exists g s, wf g /\ cond_full g /\ (forall p b, reach g s p -> g_blk g p = Some b -> dist_b b) /\
-              inc_covers g s /\ g_inc g s = [] /\ g_blk (fst (normalize g s)) <> g_blk g.
+  exists g s, wf g /\ cond_full g /\ inc_covers g s /\ g_inc g s = [] /\
+              g_blk (fst (normalize g s)) <> g_blk g.
 Proof. exact normalize_correct_nonvacuous. Qed.
 Print Assumptions C01_normalize_correct_nonvacuous.
 
-(* the side conditions are needed (graphs that lowering does not produce, the Python code has the
-   same behaviour): a conditional block whose two branches coincide ... *)
-Theorem C01_normalize_double_edge_refuted :
-  exists g s,
-    wf g /\ cond_full g /\ inc_covers g s /\ g_inc g s = [] /\ validate_tree g s = true /\
-    let '(g', s') := normalize g s in
-    ~ equiv_from env0 (g_blk g) s (g_blk g') s'.
-Proof. exact normalize_double_edge_refuted. Qed.
-Print Assumptions C01_normalize_double_edge_refuted.
-
-(* ... and a start block that has a predecessor *)
+(* the remaining side condition is needed: a start block that has a predecessor which gets merged
+   into it (compile_one never produces one: the root of a routine is never a loop) *)
 Theorem C01_normalize_start_with_pred_refuted :
   exists g s,
-    wf g /\ norm_pre_check g = true /\ inc_covers g s /\ validate_tree g s = true /\
+    wf g /\ cond_full_check g = true /\ inc_covers g s /\ validate_tree g s = true /\
     let '(g', s') := normalize g s in
     ~ equiv_from env0 (g_blk g) s (g_blk g') s'.
 Proof. exact normalize_start_with_pred_refuted. Qed.
 Print Assumptions C01_normalize_start_with_pred_refuted.
 
-(* the repaired variants preserve behaviour too (so a repair cannot trade C20 for C01) *)
-Theorem C01_normalize_fixed_correct :
+(* ---- HISTORICAL: the code before the repair 39fa261 of /repo ([normalize_pinned]) ---- *)
+(* it preserved behaviour as well (its defects were AssertionErrors, C20) on graphs whose
+   conditional blocks have two DIFFERENT branches ... *)
+Theorem C01_normalize_pinned_correct :
   forall (env : denv) (g : graph) (s : id) (g' : graph) (s' : id),
     cond_full g ->
     (forall p b, reach g s p -> g_blk g p = Some b -> dist_b b) ->
     inc_covers g s -> g_inc g s = [] ->
-    normalize_fixed g s = (g', s') ->
+    normalize_pinned g s = (g', s') ->
     equiv_from env (g_blk g) s (g_blk g') s'.
-Proof. exact normalize_fixed_correct. Qed.
-Print Assumptions C01_normalize_fixed_correct.
+Proof. exact normalize_pinned_correct. Qed.
+Print Assumptions C01_normalize_pinned_correct.
 
-Theorem C01_normalize_fixed3_correct :
-  forall (env : denv) (g : graph) (s : id) (g' : graph) (s' : id),
-    cond_full g -> inc_covers g s -> g_inc g s = [] ->
-    normalize_fixed3 g s = (g', s') ->
-    equiv_from env (g_blk g) s (g_blk g') s'.
-Proof. exact normalize_fixed3_correct. Qed.
-Print Assumptions C01_normalize_fixed3_correct.
+(* ... and only on those: with the [elif] replacement a conditional block whose two branches
+   coincide made pass 1 run the merged predecessor's ops twice *)
+Theorem C01_normalize_pinned_double_edge_refuted :
+  exists g s,
+    wf g /\ cond_full g /\ inc_covers g s /\ g_inc g s = [] /\ validate_tree g s = true /\
+    let '(g', s') := normalize_pinned g s in
+    ~ equiv_from env0 (g_blk g) s (g_blk g') s'.
+Proof. exact normalize_pinned_double_edge_refuted. Qed.
+Print Assumptions C01_normalize_pinned_double_edge_refuted.
